@@ -58,6 +58,11 @@ def declOf? : Sexp → Option (DeclD × Options.DeclSpans)
             { ident := ← mkSpan? ilo ihi, variantIdents := spans })
   | _ => none
 
+def typeParamOf? : Sexp → Option TypeParamD
+  | .list [.atom "typaram", .str id, .list attrs, bounds, dflt] => do
+      pure { ident := id, attrs := ← attrs.mapM attrOf?, bounds := ← strs? bounds, default := ← optStr? dflt }
+  | _ => none
+
 def traitOf? : Sexp → Option Options.Trait
   | .atom "FromMeta" => some .fromMeta
   | .atom "FromDeriveInput" => some .fromDeriveInput
